@@ -348,3 +348,10 @@ Definition stmt_diag_complete : Prop :=
     forall j, j < kdim P A shapes ->
       exists e, In e (entries P A shapes tri) /\ erow e = j /\ ecol e = j.
 
+
+(** the two hypotheses of [maps_partition_partial], derived *)
+Definition stmt_tags_nodup : Prop :=
+  forall T (P A : @csc T) (shapes : list shape) (tri : triangle), tags_nodup (entries P A shapes tri).
+Definition stmt_cols_lt : Prop :=
+  forall T (P A : @csc T) (shapes : list shape) (tri : triangle), wf_input P A shapes ->
+    cols_lt (kdim P A shapes) (entries P A shapes tri).
